@@ -26,6 +26,20 @@ type Finding struct {
 	WitnessFile string        `json:"witness_harness"`
 	Witness     string        `json:"witness_entry"`
 	Neutraliser []SourcePatch `json:"neutraliser"`
+	// alternative spellings of the neutraliser, tried in order when the first
+	// does not apply to the (refactored) source
+	NeutraliserAlt [][]SourcePatch `json:"neutraliser_alt,omitempty"`
+}
+
+// resolveNeutraliser returns the first spelling of f's neutraliser that applies
+// to the current tree, or nil.
+func resolveNeutraliser(repo, verif string, f *Finding) []SourcePatch {
+	for _, ps := range append([][]SourcePatch{f.Neutraliser}, f.NeutraliserAlt...) {
+		if len(ps) > 0 && patchesApply(repo, verif, ps) {
+			return ps
+		}
+	}
+	return nil
 }
 
 type FindingsFile struct {
@@ -454,10 +468,15 @@ func runCheck(o *checkOpts, spec *CheckSpec, doSelftest bool) int {
 			if !contains(f.Properties, prop) {
 				continue
 			}
-			if findingReproduces(o, &f) && patchesApply(o.repo, f.Neutraliser) {
+			if !findingReproduces(o, &f) {
+				continue
+			}
+			if ps := resolveNeutraliser(o.repo, o.verif, &f); ps != nil {
 				knownLines = append(knownLines, fmt.Sprintf("KNOWN-FINDING: property=%s %s: %s", prop, f.ID, f.What))
-				neutral = append(neutral, f.Neutraliser...)
+				neutral = append(neutral, ps...)
 				used = append(used, f.ID)
+			} else {
+				fmt.Printf("NOTE property=%s the witness of known finding %s still fails on this tree, but its neutralising overlay does not apply to the changed source: known and new violations cannot be separated and are all reported\n", prop, f.ID)
 			}
 		}
 		if len(neutral) == 0 {
@@ -562,21 +581,29 @@ func patchesFor(u *CheckSpec, patches []SourcePatch) []SourcePatch {
 	return patches // patches address files by repo-relative path; harmless for other packages
 }
 
-func patchesApply(repo string, ps []SourcePatch) bool {
+// patchesApply reports whether every patch applies. A file named
+// <pkg>/zz_verif_<x>.go is the harness file harness/<pkg base>/<x>.go as it
+// appears in the overlay (a patch of the oracle's known-finding mode switch).
+func patchesApply(repo, verif string, ps []SourcePatch) bool {
 	files := map[string]string{}
 	for _, p := range ps {
 		src, ok := files[p.File]
 		if !ok {
-			b, err := os.ReadFile(filepath.Join(repo, p.File))
+			path := filepath.Join(repo, p.File)
+			if base := filepath.Base(p.File); strings.HasPrefix(base, "zz_verif_") {
+				path = filepath.Join(verif, "harness", filepath.Base(filepath.Dir(p.File)), strings.TrimPrefix(base, "zz_verif_"))
+			}
+			b, err := os.ReadFile(path)
 			if err != nil {
 				return false
 			}
 			src = string(b)
 		}
-		if strings.Count(src, p.Old) != 1 {
+		ns, err := p.apply(src)
+		if err != nil {
 			return false
 		}
-		files[p.File] = strings.Replace(src, p.Old, p.New, 1)
+		files[p.File] = ns
 	}
 	return true
 }
